@@ -194,6 +194,11 @@ func judgeDate(c DateCase) *eng.Fail {
 		return eng.F("harness/zone-mismatch", "this case was recorded under TZ=%s; replay it with TZ=%s VERIF_ZONE=%s", c.Zone, c.Zone, c.Zone)
 	}
 	data := map[string]interface{}{"y": float64(c.Y), "m": float64(c.M), "d": float64(c.D), "dy": float64(c.DY), "dm": float64(c.DM), "dd": float64(c.DD)}
+	if (c.Y+c.M+c.D)%5 == 0 {
+		// a record that happens to have columns named like the date builtins: a bare name that is a builtin
+		// denotes the builtin (C16), so nothing changes
+		data["date"], data["day"], data["year"], data["addDate"], data["millSecond"], data["month"] = "2020-01-01", 5.0, nil, "x", 0.0, []interface{}{}
+	}
 	src := dateFormula
 	what := fmt.Sprintf("date(%d,%d,%d) in %s", c.Y, c.M, c.D, name)
 	days := normDays(int64(c.Y), int64(c.M), int64(c.D))
